@@ -124,8 +124,13 @@ class Tree:
         return n is not None and n["t"] == "d"
 
     def is_fileish(self, p):
+        """regular file, or symbolic link that leads to something that can be opened"""
         n = self.node(p)
-        return n is not None and n["t"] in ("f", "l")
+        if n is None:
+            return False
+        if n["t"] == "l":
+            return n["to"] == "/dev/null" or (norm(n["to"]) != norm(p) and self.is_fileish(n["to"]))
+        return n["t"] == "f"
 
     def listdir(self, d):
         d = norm(d)
